@@ -107,7 +107,7 @@ class C02(CheckBase):
             v.evaluations += 1
             if not self._bad(v, r, "show-titles"):
                 want = b"".join(b"0%s: %s\n" % ((vol["label"] or "").encode(), ref_title(vol["title"]))
-                                for vol in s["volumes"])
+                                for vol in sorted(s["volumes"], key=lambda v_: v_["label"] or ""))    # by letter
                 if r.stdout != want:
                     v.fail("C02/show-titles", "show-titles output differs", {"got": r.stdout[:400], "want": want[:400]})
             vols = s["volumes"]
